@@ -44,7 +44,9 @@ Section Who.
     - intros m x _. split; auto.
     - intros m x _. split; auto.
     - intros m x a b _. split; auto.
-    - intros m x a b _. split; auto.
+    - intros m x _. split; auto.
+    - intros m x _. split; auto.
+    - intros m x _ _. split; auto.
     - intros m x w _. split; auto.
     - intros m x i r _. split; auto.
     - intros m x _ _ _. split; auto.
@@ -94,7 +96,9 @@ Section Who.
     - intros m x _. repeat split; auto.
     - intros m x _. repeat split; auto.
     - intros m x a b _. repeat split; auto.
-    - intros m x a b _. repeat split; auto.
+    - intros m x _. repeat split; auto.
+    - intros m x _. repeat split; auto.
+    - intros m x _ _. repeat split; auto.
     - intros m x w _. repeat split; auto.
     - intros m x i r _. repeat split; auto.
     - intros m x _ _ _. repeat split; auto.
@@ -123,7 +127,9 @@ Section Who.
     - intros m x. split; auto.
     - intros m x. split; auto.
     - intros m x a b. split; auto.
-    - intros m x a b. split; auto.
+    - intros m x. split; auto.
+    - intros m x. split; auto.
+    - intros m x _. split; auto.
     - intros m x w. split; auto.
     - intros m x i r. split; auto.
     - intros m x H _. split; [auto|]. intros _. destruct H as [H|[H1 H2]]; [auto|]. right. right. unfold C. now rewrite H1, H2.
